@@ -63,6 +63,16 @@ def gen_datagrams(rng, n):
             for val in BOUNDARY:
                 uniq += 1
                 out.append((f"option-boundary:{on.lower()}={val}", N.enc_req(kind, name or f"u{uniq}.bin", options=[(on, val)])))
+        small = ["0", "+0", "1", "8", "512", "65464", "65535", "65536", "18446744073709551615"]
+        base_names = ["blksize", "timeout", "tsize", "windowsize"]
+        for o1 in base_names:
+            for o2 in base_names:
+                if o1 == o2:
+                    continue
+                for v1 in small:
+                    for v2 in small:
+                        uniq += 1
+                        out.append(("option-pair", N.enc_req(kind, name or f"u{uniq}.bin", options=[(o1, v1), (o2, v2)])))
         for _ in range(150):
             k = rng.randrange(2, 5)
             opts = [(rng.choice(OPTNAMES), rng.choice(BOUNDARY)) for _ in range(k)]
@@ -268,7 +278,7 @@ def run(tier):
     flavors = ("release", "checked")
     ctx = Ctx("C05", tier, flavors=flavors)
     thorough = tier == "thorough"
-    n = 120_000 if thorough else 12_000
+    n = 120_000 if thorough else 14_000
     jobs = []
     k = 0
     with concurrent.futures.ThreadPoolExecutor(max_workers=12) as ex:
